@@ -9,7 +9,8 @@ from ..common import fsd, fse
 from ..runner import ok, violation, inconclusive
 from . import ddcase
 
-RULE = ("a helper process holds fcntl write or read locks on a chosen subset of the members that the reference model says "
+RULE = ("a helper process holds fcntl write or read locks (whole file, first byte, a record inside the file, a record past "
+        "its end) on a chosen subset of the members that the reference model says "
         "will be dropped (controls: locks on retained members, locks released before the run); each of the five operations "
         "then runs on the real report with and without --no-lock (dedupe with FICLONE emulation). Oracle: without --no-lock "
         "every locked inode's paths are untouched (inode, bytes, mtime) and named by a 'Failed to lock' warning, all other "
@@ -61,6 +62,9 @@ def _run(sc, r, scratch, i):
     no_lock = r.random() < 0.3
     variant = r.choice(["drop", "drop", "drop", "kept-control", "released-control"])
     lock_mode = r.choice(["ex", "sh"])
+    # the byte range held by the foreign process: whole file, a record inside it, a record past its end
+    # (SQLite keeps its locks at 0x40000000), the first byte only
+    lock_range = r.choice([(0, 0), (0, 0), (1, 1), (16, 4096), (0x40000000, 510), (0, 1), (2, 0)])
     pool = sorted(expected) if variant != "kept-control" else sorted(kept)
     if not pool:
         return []
@@ -70,7 +74,7 @@ def _run(sc, r, scratch, i):
     target = os.path.join(d, "moved") if op == "move" else None
     holder = subprocess.Popen([sys.executable, HOLDER], stdin=subprocess.PIPE, stdout=subprocess.PIPE)
     try:
-        holder.stdin.write((json.dumps([[p.hex(), lock_mode] for p in locked]) + "\n").encode())
+        holder.stdin.write((json.dumps([[p.hex(), lock_mode, lock_range[0], lock_range[1]] for p in locked]) + "\n").encode())
         holder.stdin.flush()
         line = holder.stdout.readline()
         if line.strip() != b"ready":
@@ -95,7 +99,7 @@ def _run(sc, r, scratch, i):
         except Exception:
             holder.kill()
     witness = {"case": i, "scenario": {k: sc[k] for k in ("group", "fmt", "op", "cfg")}, "spec": sc["spec"], "variant": variant,
-               "lock_mode": lock_mode, "no_lock": no_lock, "locked": [fsd(p) for p in locked],
+               "lock_mode": lock_mode, "lock_range_start_len": list(lock_range), "no_lock": no_lock, "locked": [fsd(p) for p in locked],
                "argv": [fsd(a) for a in rargv], "rc": rres.rc, "stderr": rres.err_text()[-2500:],
                "report": report.decode("utf-8", "replace")[:3000]}
     if rres.timed_out:
@@ -136,9 +140,9 @@ def _run(sc, r, scratch, i):
             witness["summary"] = summ
             return [violation("C20:%s:processed-count-includes-locked" % op,
                               "summary says %d files processed, %d expected" % (summ["count"], len(must_process)), witness)]
-    sig = (op, variant, lock_mode, no_lock, len(locked), sc["fmt"]) if variant == "drop" else None
+    sig = (op, variant, lock_mode, lock_range, no_lock, len(locked), sc["fmt"]) if variant == "drop" else None
     counts = {"locked_files": len(locked), "ops": [op], "variants": [variant + ("/no-lock" if no_lock else "")]}
-    return [ok(sig, {"op": op, "variant": variant, "lock": lock_mode, "no_lock": no_lock, "locked": len(locked),
+    return [ok(sig, {"op": op, "variant": variant, "lock": lock_mode, "range": list(lock_range), "no_lock": no_lock, "locked": len(locked),
                      "processed": len(done)}, counts)]
 
 
